@@ -1125,7 +1125,10 @@ def check(c):
                   "tools/props/c02.py (generators, regime test, comparison)",
                   "SSVerif/Model/FlatNet.lean as the *definition* of a legal alignment (contexts, penalties, one null hop, "
                   "any right-context variant at the utterance end) — modelled from the code's documented intent, not verified against it",
-                  "bin_mdef_phone_id_nearest / bin_mdef_pid2ssid (triphone back-off) and the acoustic scorer: their outputs are taken as data",
+                  "the acoustic scorer (senone scores taken as data); the triphone back-off is NOT taken as data any more (close6-c02): the legal "
+                  "triphone of every (base, left, right, position) is computed by the Lean model Dict2pid.nearest (exact tree-walk look-ups on the "
+                  "dumped cd_tree + back-off rule; the same model C16 ties to dict2pid) and its senone sequence feeds the optimum oracle; "
+                  "trusted there: h_c16 mdefdump (dump of cd_tree / ssid table)",
                   "fsg_model.c (reader, null closure, silence/alternate arcs): the search FSG is dumped after them (C01/C05/C13 cover it)"]
     c.assumptions += ["compallsen=yes (with the default the per-frame normaliser depends on the active senone set and the "
                       "total is not a function of the frame scores alone — DESIGN D12)",
@@ -1174,6 +1177,15 @@ def check(c):
         cases.append(gen_history_case(c.rng, dic["en-us"], vocab["en-us"], f"hist{i}", c.tier))
     for i in range(nhist[1]):
         cases.append(gen_history_case(c.rng, dic["fr-fr"], vocab["fr-fr"], f"frhist{i}", c.tier, lang="fr-fr"))
+    # close6-c02: adjacent words whose cross-word triphone the model definition lacks (run-time added words with rare boundary phones)
+    nrare = {"fr-fr": 14, "en-us": 10} if c.tier == "quick" else {"fr-fr": 250, "en-us": 250}
+    for lang in LANGS:
+        ab = absent_triphones(binp, lang, dictfile[lang])
+        stats.setdefault("absent_triphones", {})[lang] = {
+            "phones": len(ab["names"]), "silence_phone_id": ab["sil"],
+            "(b,l,r)_absent_at_every_word_position": sum(len(v) for v in ab["absent"].values())}
+        for i in range(nrare[lang]):
+            cases.append(gen_rare_case(c.rng, dic[lang], vocab[lang], f"rare{'fr' if lang == 'fr-fr' else ''}{i}", c.tier, lang, ab, stats))
     if c.tier == "thorough":
         for i in range(60):   # full recording, default and wide beams
             cases.append(gen_case(c.rng, dic["en-us"], vocab["en-us"], f"full{i}", c.tier, beams=("default" if i % 2 else "wide"), frames=278))
@@ -1182,6 +1194,7 @@ def check(c):
     allok, nontrivial, nviol, nfind, lexok, nlex = True, set(), 0, 0, True, 0
     searchok, nsearch = True, 0
     finishok = True
+    backok, nback, backfirst = True, 0, None
     stats["search_tie"] = {"cover_certificates_checked": 0, "cases_compared": 0, "frames_compared": 0, "cases_outside_regime": 0, "history_entries": 0, "pnodes": 0}
     B = 30
     batches = []
@@ -1196,6 +1209,10 @@ def check(c):
             return
         for case in batch:
             h, m = hs.get(case["id"]), ms.get(case["id"])
+            if m and m.get("backoff_bad"):
+                backok = False
+                nback += 1
+                backfirst = backfirst or {"case": case, "differing_triphones": m["backoff_bad"][:6]}
             kind, detail = verdict(case, h, m)
             stats["verdicts"][kind] = stats["verdicts"].get(kind, 0) + 1
             stats["shapes"][case["shape"]] = stats["shapes"].get(case["shape"], 0) + 1
@@ -1323,6 +1340,12 @@ def check(c):
              "the exact-optimum oracle", finishok,
              {"utterances_inspected": stats.get("finish_checks_(utterances_after_which_every_pnode_was_inspected)", 0),
               "history_family": stats.get("history_family", {})})
+    c.oblige("back-off = model: on every case, for every (base, left, right, word position) the flat network needs, pid2ssid(bin_mdef_phone_id_nearest) "
+             "of the real code = the senone sequence of the Lean model Dict2pid.nearest (exact tree-walk look-ups on the dumped cd_tree, other word positions "
+             "0..3, silence contexts, CI phone); the optimum oracle below uses the MODEL's value", backok,
+             dict(BACKOFF_STATS, cases_with_a_difference=nback, first=backfirst))
+    if not backok and not c.violations:
+        c.violation({"kind": "bin_mdef_phone_id_nearest vs model (no score violation exhibited)", **(backfirst or {})}, False, tag="backoff")
     c.oblige("oracle on the implementation: reported score = model optimum in the no-pruning regime, <= optimum otherwise, "
              "on every corpus and generated case", allok, stats["verdicts"])
 
@@ -1342,6 +1365,8 @@ def check(c):
                   "history_family": stats.get("history_family", {}),
                   "finish_checks_(utterances_after_which_every_pnode_was_inspected)": stats.get("finish_checks_(utterances_after_which_every_pnode_was_inspected)", 0),
                   "vocabulary_size": {k: len(v) for k, v in vocab.items()}, "acoustic_models": stats["langs"],
+                  "triphone_back_off_vs_model": dict(BACKOFF_STATS), "rare_boundary_family": stats.get("rare_boundary_family", {}),
+                  "absent_triphones_per_model": stats.get("absent_triphones", {}),
                   "unit_ops": stats.get("unit_ops"), "hmm_ops_also_checked_against_max_plus": stats.get("hmm_ideal_checked"),
                   "hmm_skip_flags_(0->2,1->3)": {str(k): v for k, v in stats["hmm_skip"].items()},
                   "hmm_active_states_(0,1,2)": {str(k): v for k, v in stats["hmm_active"].items()},
